@@ -209,6 +209,8 @@ HAND_TTCS = [
     ('[Aa * 2 / 3 + Bb ^ 2 - 1]', bin_('subtraction', bin_('addition', bin_('division', bin_('multiplication', fn('Aa'), num(2)), num(3)),
                                                         bin_('exponentiation', fn('Bb'), num(2))), num(1))),
     ('[Aa - Bb - Cc]', bin_('subtraction', bin_('subtraction', fn('Aa'), fn('Bb')), fn('Cc'))),
+    ('[Aa - Bb + Cc]', bin_('addition', bin_('subtraction', fn('Aa'), fn('Bb')), fn('Cc'))),
+    ('[Aa + Bb - Cc + Dd]', bin_('addition', bin_('subtraction', bin_('addition', fn('Aa'), fn('Bb')), fn('Cc')), fn('Dd'))),
     ('[Aa - (Bb - Cc)]', bin_('subtraction', fn('Aa'), bin_('subtraction', fn('Bb'), fn('Cc')))),
     ('[Aa / Bb * Cc]', bin_('multiplication', bin_('division', fn('Aa'), fn('Bb')), fn('Cc'))),
     ('[Aa * Bb * Cc * Dd]', bin_('multiplication', bin_('multiplication', bin_('multiplication', fn('Aa'), fn('Bb')), fn('Cc')), fn('Dd'))),
